@@ -219,6 +219,13 @@ func (e *Engine) Exec(tx Tx) *Report {
 	rc := e.Rc
 	rep := &Report{}
 	e.TxCount++
+	// requests with a field left off the wire: the encoder gets the wrapped form, everything else the inner request
+	wireMsgs := tx.Msgs
+	if un, any := unwrapMsgs(tx.Msgs); any {
+		tx.Msgs = un
+		tx.Note += " [a field is absent on the wire]"
+		rc.Cov.Cell("env_actions", "field-absent-on-the-wire")
+	}
 	// ---- model verdict (sequential over messages on a clone)
 	st := e.M.Clone()
 	txExp := MustSucceed
@@ -255,7 +262,7 @@ func (e *Engine) Exec(tx Tx) *Report {
 	}
 	preLedger := e.ledgerSnapshot(extraAddrs)
 	// ---- execute
-	bz, err := e.C.BuildTx(tx.Msgs...)
+	bz, err := e.C.BuildTx(wireMsgs...)
 	if err != nil {
 		rc.Cov.Inconclusive("BuildTx: " + err.Error())
 		return rep
@@ -290,9 +297,9 @@ func (e *Engine) Exec(tx Tx) *Report {
 		pad := &ct.MsgUpdateMaxMessageBodySize{From: e.M.Owner, MessageSize: e.M.MaxBody}
 		var msgs []sdk.Msg
 		if posFront {
-			msgs = append([]sdk.Msg{pad}, tx.Msgs...)
+			msgs = append([]sdk.Msg{pad}, wireMsgs...)
 		} else {
-			msgs = append(append([]sdk.Msg{}, tx.Msgs...), pad)
+			msgs = append(append([]sdk.Msg{}, wireMsgs...), pad)
 		}
 		if pb, perr := e.C.BuildTx(msgs...); perr == nil {
 			rc.LogCall("SIMULATE-POSITION-TWIN front=%v", posFront)
